@@ -110,6 +110,11 @@ def run(ck, fx, cg, tier):
     # "unknown method": the parent-chain walk must END in a failure — decided precisely by C14's dispatch rules
     shared.presuppose(ck, fx, cg, "C14", lambda o: o["rule"] == "R14.dispatch" and ("missing method" in o["key"] or "failure" in o["key"]), "R10.faults",
                       "detect|unknown method: the parent chain ends in a failure", floor=1)
+    # "successful runs exit with status zero", "no abort": the memory flags take no part in execution — a flag value that
+    # sizes an allocation (`reserve(max_size / ..)`) makes the allocator abort the process (SIGABRT, stdout lost) before
+    # the first instruction runs. That the --heap-size number reaches nothing but the stored limit is C16's R16.inert.
+    shared.presuppose(ck, fx, cg, "C16", lambda o: o["rule"] == "R16.inert", "R10.noexit0",
+                      "the memory flags are inert: no flag value sizes an allocation or steers execution (C16 R16.inert)", floor=5)
 
 
 PURE_OPS = {"Literal", "Drop", "GetLocal"}   # cannot fault at run time: leaving them out changes nothing observable
